@@ -36,6 +36,11 @@ StructBases(n, parent) ==
     LET raw == IF n.subs = <<>> THEN SubSeq(parent, n.start + 1, n.end)
                ELSE Join([i \in 1..Len(n.subs) |-> StructBases(n.subs[i], parent)]) IN
     IF n.complement THEN RC(raw) ELSE raw
+(* every leaf of the node lies on a parent of length n; only then does a feature have bases to report *)
+(* (an annotation-only record - a GFF file without its FASTA part - has features and no sequence)     *)
+RECURSIVE Resolvable(_, _)
+Resolvable(n, len) == IF n.subs = <<>> THEN 0 <= n.start /\ n.start <= n.end /\ n.end <= len
+                      ELSE \A i \in 1..Len(n.subs) : Resolvable(n.subs[i], len)
 (* the same on the JSON form of a location *)
 RECURSIVE JBases(_, _)
 JBases(j, parent) ==
